@@ -12,7 +12,7 @@ def run_tool(tool, seed, n, extra=(), lift=None, timeout=3600, outdir=None):
     outdir = outdir or os.path.join(core.BUILD, "work", "tool_" + tool)
     shutil.rmtree(outdir, ignore_errors=True)
     os.makedirs(outdir, exist_ok=True)
-    cmd = [os.path.join(core.BIN, tool), "-seed", str(seed), "-n", str(n), "-pigeon", PIGEON, "-out", outdir] + list(extra)
+    cmd = [core.need_tool(tool), "-seed", str(seed), "-n", str(n), "-pigeon", PIGEON, "-out", outdir] + list(extra)
     if lift:
         cmd += ["-lift", lift]
     p = subprocess.run(cmd, stdout=subprocess.PIPE, stderr=subprocess.PIPE, timeout=timeout, env=core.goenv(True), stdin=subprocess.DEVNULL)
